@@ -453,6 +453,53 @@ def fam_bound(tier, rng):
         ops.append(f"visit tx b3 {hx(t.enc())}")
         t2 = Tx(1, [(pat.take(32), 1, body, 0xFFFFFFFE)], [(9, body)], [], 3, False)
         ops.append(f"visit tx n " + hx(t2.enc() + b'\x00'))
+    # one big element alone / last (a decoder that loses track of its offset at a wide length prefix can still succeed)
+    for l in (253, 65536):
+        body = bytes((i * 29 + 1) % 256 for i in range(l))
+        for els in ([body], [b"\x05", body], [b"", b"\x06\x07", body]):
+            w = cs(len(els)) + b"".join(cs(len(e)) + e for e in els)
+            ops.append("visit witness n " + hx(w))
+            ops.append("visit witness n " + hx(w + b"\x00\x01"))
+            ops.append("visit witnesses:1 n " + hx(w + b"\x03"))
+            ops.append("visit witnesses:2 n " + hx(b"\x00" + w))
+            t = Tx(2, [(pat.take(32), 1, b"", 0xFFFFFFFE)], [(9, b"\x51")], [els], 0x01020304, True)
+            ops.append("visit tx n " + hx(t.enc()))
+            ops.append("visit tx n " + hx(t.enc() + b"\xaa\xbb"))
+        # segwit transactions whose witness-stripped part is large (many inputs / a long script)
+        t = Tx(2, [(pat.take(32), i, bytes([0x51] * (i % 4)), 0xFFFFFF00 + i % 200) for i in range(min(l, 300))],
+               [(7, body)], [[bytes([i % 256])] if i % 5 == 0 else [] for i in range(min(l, 300))], 99, True)
+        ops.append("visit tx n " + hx(t.enc()))
+        ops.append("redb tx " + hx(t.enc()))
+    # wider-than-minimal length prefixes exactly at the thresholds, with the full body present (everything else valid)
+    for l, forms in ((252, [b"\xfd\xfc\x00", b"\xfe\xfc\x00\x00\x00"]), (65535, [b"\xfe\xff\xff\x00\x00", b"\xff\xff\xff" + b"\x00" * 6]),
+                     (0, [b"\xfd\x00\x00"]), (1, [b"\xfe\x01\x00\x00\x00"])):
+        body = bytes((i * 31 + 2) % 256 for i in range(l))
+        for f in forms:
+            ops.append("visit script n " + hx(f + body + b"\x01"))
+            ops.append("visit txout n " + hx(struct.pack("<Q", 3) + f + body))
+            ops.append("visit witness n " + hx(b"\x01" + f + body))
+            ops.append("visit txin n " + hx(pat.take(36) + f + body + struct.pack("<I", 4)))
+            t = Tx(1, [(pat.take(32), 1, b"", 0xFFFFFFFE)], [(9, body)], [], 3, False).enc()
+            good = cs(l)
+            i = t.index(good + body) if l else None
+            if i is not None:
+                ops.append("visit tx n " + hx(t[:i] + f + t[i + len(good):]))
+                ops.append("visit block n " + hx(header(pat) + b"\x01" + t[:i] + f + t[i + len(good):]))
+    # outpoints: null / coinbase-like indices with zero and non-zero ids; ordering pairs that differ only in the index
+    for txid in (bytes(32), bytes(range(1, 33)), bytes([0xFF] * 32)):
+        for vout in (0, 1, 255, 256, 257, 65535, 65536, 0x7FFFFFFF, 0xFFFFFFFE, 0xFFFFFFFF):
+            e = txid + struct.pack("<I", vout)
+            ops.append("visit outpoint n " + hx(e + b"\x01\x02"))
+            ops.append("redb outpoint " + hx(e))
+            ops.append("visit txin n " + hx(e + b"\x00" + struct.pack("<I", 0xFFFFFFFF)))
+        for v1, v2 in ((1, 256), (256, 1), (255, 256), (0xFFFFFFFF, 0), (65536, 255), (2, 0x01000000), (7, 7)):
+            ops.append(f"cmp {hx(txid + struct.pack('<I', v1))} {hx(txid + struct.pack('<I', v2))}")
+    # stored output lists whose count needs each compact-size width (from_bytes re-reads the count only)
+    for n in (0, 1, 252, 253, 65535, 65536):
+        if n > 300 and tier == "quick" and n != 65536:
+            continue
+        outs = cs(n) + (struct.pack("<Q", 1) + b"\x00") * n
+        ops.append("redbraw txouts " + hx(outs))
     # the smallest transactions the parser accepts, exact length and with 1..60 trailing bytes; blocks ending in them
     tiny_seg = bytes([1, 0, 0, 0, 0, 1, 0, 0, 0, 0, 0, 0])
     tiny_leg = struct.pack("<i", 1) + b"\x01" + inp(3) + b"\x00" + struct.pack("<I", 0)
